@@ -5,6 +5,7 @@ package slip
 import (
 	"encoding/json"
 	"fmt"
+	"math"
 	"math/big"
 	"time"
 	"unsafe"
@@ -84,7 +85,7 @@ func SimpleObject(val any) (obj Object) {
 		obj = Fixnum(tv)
 
 	case uint:
-		obj = Fixnum(tv)
+		obj = unsignedObject(uint64(tv))
 	case uint8:
 		obj = Octet(tv)
 	case uint16:
@@ -92,7 +93,7 @@ func SimpleObject(val any) (obj Object) {
 	case uint32:
 		obj = Fixnum(tv)
 	case uint64:
-		obj = Fixnum(tv)
+		obj = unsignedObject(tv)
 
 	case float32:
 		obj = SingleFloat(tv)
@@ -138,6 +139,15 @@ func SimpleObject(val any) (obj Object) {
 		obj = String(tv.Error())
 	}
 	return
+}
+
+// unsignedObject converts an unsigned integer to a fixnum or, when it is too
+// large for a fixnum, to a bignum.
+func unsignedObject(u uint64) Object {
+	if u <= math.MaxInt64 {
+		return Fixnum(u)
+	}
+	return (*Bignum)(new(big.Int).SetUint64(u))
 }
 
 // numberObject converts the text of a number that does not fit an int64 or a
